@@ -16,7 +16,7 @@ import (
 )
 
 func main() {
-	mode := flag.String("mode", "updown", "updown|down|alter|cycle|layout")
+	mode := flag.String("mode", "updown", "updown|down|alter|cycle|layout|inverse")
 	tier := flag.String("tier", "quick", "quick|thorough")
 	outDir := flag.String("out", "", "output directory")
 	flag.Parse()
@@ -36,6 +36,8 @@ func main() {
 		runCycleStage(w, *tier)
 	case "layout":
 		runLayoutStage(w, *tier)
+	case "inverse":
+		runInverseStage(w, *tier)
 	default:
 		fmt.Fprintln(os.Stderr, "unknown mode")
 		os.Exit(2)
